@@ -62,6 +62,9 @@ func genTimerCase(rng *rand.Rand) tCase {
 			switch x := rng.IntN(10); {
 			case x < 4 && !ts.Interval && cancelAt < 0:
 				op = "refresh"
+			case x < 2 && ts.Interval && cancelAt < 0:
+				// refreshing a pending interval moves its schedule: next tick one period after the refresh
+				op = "refresh"
 			case x < 6:
 				op = "clear"
 			case x < 7:
@@ -73,7 +76,12 @@ func genTimerCase(rng *rand.Rand) tCase {
 			c.Ops = append(c.Ops, tOp{At: at, Timer: i, Op: op, Sync: rng.IntN(2) == 0})
 		}
 		if ts.Interval && cancelAt < 0 {
-			c.Ops = append(c.Ops, tOp{At: ts.Create + 1 + rng.IntN(45), Timer: i, Op: "clear", Sync: rng.IntN(2) == 0})
+			// every interval is cancelled in the end, after its last (refresh) operation
+			last := ts.Create
+			if len(times) > 0 {
+				last = times[len(times)-1]
+			}
+			c.Ops = append(c.Ops, tOp{At: last + 1 + rng.IntN(45), Timer: i, Op: "clear", Sync: rng.IntN(2) == 0})
 		}
 	}
 	if rng.IntN(5) == 0 {
@@ -107,6 +115,10 @@ func timerModel(c tCase) (req, opt []map[int]bool) {
 				}
 				if due == t {
 					opt[i][due] = true
+				}
+				if op.Op == "refresh" {
+					due = t + ts.Period
+					continue
 				}
 				cancelled = true
 				continue
@@ -643,7 +655,7 @@ func TestC19(t *testing.T) {
 	defer r.Flush()
 	r.Rule("virtual-time (synctest) sequences of SetTimeout/SetInterval/Refresh/Stop/ClearTimeout/ClearInterval on 1-3 timers, operations placed on and off the due instants, issued from other goroutines, with repeated and concurrent cancels; each run compared with a reference schedule (required / optional-at-coincidence / forbidden instants), cancel-return watchdog and bubble leftover scan; gate lanes hold the interval loop between tick and re-arm and a canceller between runtime Stop and its signal; a storm of 2-3 concurrent cancels at exactly the due instant (the runtime timer is firing while they run); a callback-behaviour lane (the callback cancels or refreshes its own timer; callbacks that outlast 2.5 periods with a cancel from another goroutine while one is running); distinct = (timer kinds, op multiset, number of coincident ops, outcome)")
 	r.Assume("an operation issued at exactly a due instant races with the runtime timer by design: the callback of that instant may or may not run (optional), everything else is exact")
-	r.Assume("Refresh is specified for timeouts (pending or fired, not cancelled); it is not generated for intervals or after a cancel")
+	r.Assume("Refresh is generated for timeouts (pending or fired) and for pending intervals (the schedule restarts: next tick one period after the refresh); it is not generated after a cancel")
 	n := r.N(20000, 1500000)
 	rng := r.Rand(19)
 	for i := 0; i < n; i++ {
